@@ -65,26 +65,111 @@ def const_value(e):
 
 def controlling_edges(b, bb):
     """Switch edges (S, target, value) such that, within one visit of S, `bb` is reached only via
-    that edge (value None = otherwise edge).  Nearest first."""
+    that edge (value None = otherwise edge).  Nearest first.
+
+    Reachability is decided with constant / variant propagation (Body.find_path_cp) where the plain CFG is
+    ambiguous, so a condition evaluated into a flag (`matches!`) or inside a spliced-in helper that returns
+    Some / None, true / false still controls the blocks that depend on the flag / the returned variant.  Switches
+    inside spliced-in helpers are candidates even when they are not dominators in the plain CFG."""
+    key = ("ce", bb)
+    cache = b.__dict__.setdefault("_ce_cache", {})
+    if key in cache:
+        return cache[key]
     out = []
     doms = [d for d in b.dom.get(bb, ()) if d != bb and b.term(d)["t"] == "switch"]
     # order by proximity: deeper dominators last in dom order -> sort by dominator set size, descending
     doms.sort(key=lambda d: -len(b.dom[d]))
-    for s in doms:
+    extra = []
+    if any(blk.get("inl") for blk in b.blocks):
+        up = None
+        for s in range(b.n):
+            blk = b.blocks[s]
+            if blk.get("inl") and blk["t"]["t"] == "switch" and s not in doms and s != bb and s in b.reachable:
+                if up is None:
+                    up = b.reach([0])
+                if bb in b.reach([s]) and b.find_path([0], [bb], avoid=[s]) is None:
+                    extra.append(s)
+    for s in doms + extra:
         t = b.term(s)
         edges = [(v, tb) for v, tb in t["targets"]] + [(None, t["otherwise"])]
         via = []
         for v, tb in edges:
             others = [x for _, x in edges if x != tb]
-            if bb in b.reach([tb], avoid=[s]) and bb not in b.reach(others, avoid=[s]):
-                via.append((s, tb, v))
+            if bb not in b.reach([tb], avoid=[s]):
+                continue
+            if bb in b.reach(others, avoid=[s]):
+                # ambiguous in the plain CFG: both sides join before bb; keep the edge if value propagation separates them
+                if b.find_path_cp(others, [bb], avoid=[s]) is not None or b.find_path_cp([tb], [bb], avoid=[s]) is None:
+                    continue
+            via.append((s, tb, v))
         out.extend(via)
+    cache[key] = out
     return out
 
 
-def switch_expr(b, s):
-    """Expression of the scrutinee of switch block s."""
+_SAME_OUTCOME = {
+    "std::result::Result::map_err", "std::result::Result::map", "std::option::Option::map", "std::option::Option::as_ref",
+    "std::option::Option::as_mut", "std::result::Result::as_ref", "std::result::Result::as_mut", "std::option::Option::as_deref",
+    "std::option::Option::as_deref_mut", "std::option::Option::cloned", "std::option::Option::copied",
+    "std::result::Result::cloned", "std::result::Result::copied", "std::option::Option::inspect", "std::result::Result::inspect",
+    "std::result::Result::inspect_err", "std::option::Option::take", "std::option::Option::as_pin_mut",
+    "std::option::Option::filter",      # Some stays Some (under the predicate), None stays None
+}
+
+
+def peel_outcome(e):
+    """Look through `?` and the Option / Result combinators that keep or rename the outcome: returns (source expression,
+    {outer variant name -> variant name of the source}).  `x.ok_or(e)?` on an Option x: Continue -> Some, Break -> None."""
+    ren = None      # None = identity
+
+    def compose(m):
+        nonlocal ren
+        if ren is None:
+            ren = dict(m)
+        else:
+            ren = {k: m.get(v, v) for k, v in ren.items()}
+            for k, v in m.items():
+                ren.setdefault(k, v)
+    for _ in range(8):
+        if not isinstance(e, tuple) or not e:
+            break
+        if e[0] == "try" and len(e) > 1:
+            ty = e[2] if len(e) > 2 else ""
+            if ty.startswith("std::option::Option"):
+                compose({"Continue": "Some", "Break": "None"})
+            elif ty.startswith("std::result::Result"):
+                compose({"Continue": "Ok", "Break": "Err"})
+            else:
+                break
+            e = e[1]
+        elif e[0] == "call" and e[1] in ("std::option::Option::ok_or", "std::option::Option::ok_or_else") and e[2]:
+            compose({"Ok": "Some", "Err": "None"})
+            e = e[2][0]
+        elif e[0] == "call" and e[1] == "std::result::Result::ok" and e[2]:
+            compose({"Some": "Ok", "None": "Err"})
+            e = e[2][0]
+        elif e[0] == "call" and e[1] == "std::result::Result::err" and e[2]:
+            compose({"Some": "Err", "None": "Ok"})
+            e = e[2][0]
+        elif e[0] == "call" and e[1] in _SAME_OUTCOME and e[2]:
+            e = e[2][0]
+        else:
+            break
+    return e, (ren or {})
+
+
+def switch_expr_raw(b, s):
     return b.expr(b.term(s)["o"])
+
+
+def switch_expr(b, s):
+    """Expression of the scrutinee of switch block s.  For a discriminant switch the `?` operator and outcome-preserving
+    combinators are looked through (see peel_outcome), so `match x {None => ..}` and `x.ok_or(..)?` read alike."""
+    e = b.expr(b.term(s)["o"])
+    if isinstance(e, tuple) and e and e[0] == "discr":
+        src, _ = peel_outcome(e[1])
+        return ("discr", src)
+    return e
 
 
 def switch_meaning(b, s, value):
@@ -101,10 +186,13 @@ def switch_meaning(b, s, value):
         for d in b.defs.get(o[1][0], []):
             if d[0] == "assign" and d[3]["rv"]["r"] == "discr":
                 vs = dict((v, n) for v, n in d[3]["rv"].get("variants", []))
+                e = b.expr(o)
+                ren = peel_outcome(e[1])[1] if isinstance(e, tuple) and e and e[0] == "discr" else {}
                 if value is None:
-                    rest = [n for v, n in vs.items() if v not in {x for x, _ in t["targets"]}]
+                    rest = [ren.get(n, n) for v, n in vs.items() if v not in {x for x, _ in t["targets"]}]
                     return tuple(rest)
-                return vs.get(value, value)
+                n = vs.get(value, value)
+                return ren.get(n, n)
     return value
 
 
@@ -199,3 +287,344 @@ def select_info(b):
                 arms[name[1:]] = {"fut": fe[1] if fe[0] == "call" else None, "expr": fe, "target": int(str(tgt).replace("bb", ""))}
         out.append({"poll_bb": a["poll_bb"], "ready_bb": a["ready_bb"], "switch": sw, "arms": arms, "line": a["line"]})
     return out
+
+
+def yields_error(b, starts, adt, variant=None, avoid=()):
+    """True if from the blocks `starts` the function can leave with an error value of `adt` (`::variant`): an aggregate
+    of it is constructed on the way, or a value that contains one (built eagerly before, e.g. the argument of ok_or /
+    a constructor given to map_err) is handed to FromResidual::from_residual / stored into the return place."""
+    region = b.reach(list(starts), avoid=list(avoid))
+    for bb, i, rv in b.aggregates(adt, variant):
+        if bb in region:
+            return True
+
+    def has(e):
+        for x in mir.walk(e):
+            if isinstance(x, tuple) and x:
+                if x[0] == "agg" and x[1] == adt and (variant is None or x[2] == variant):
+                    return True
+                if x[0] in ("fnconst", "fn") and isinstance(x[1], str) and x[1].startswith(adt) and (variant is None or x[1].endswith("::" + variant)):
+                    return True
+        return False
+    for bb in region:
+        t = b.term(bb)
+        if t["t"] == "call" and (mir.callee(t) or "").endswith("FromResidual::from_residual") and t["a"] and has(b.expr(t["a"][0])):
+            return True
+        for st in b.stmts(bb):
+            if st.get("k") == "assign" and st["p"] == [0] and st["rv"]["r"] == "use" and has(b.expr(st["rv"]["o"])):
+                return True
+    return False
+
+
+def ok_capable_stores(b):
+    """Blocks that store a value into the return place which may be the success variant: an Ok / Some / Ready aggregate,
+    or the result of a call other than FromResidual::from_residual (which only carries the failure).  Returns
+    [(bb, expr or None)], expr for call results."""
+    out = []
+    for bb in sorted(b.reachable):
+        for i, st in enumerate(b.stmts(bb)):
+            if st.get("k") == "assign" and st["p"] == [0]:
+                rv = st["rv"]
+                if rv["r"] == "agg":
+                    if rv.get("variant") in ("Ok", "Some", "Ready"):
+                        out.append((bb, None))
+                elif rv["r"] == "use" and rv["o"][0] != "k":
+                    e = b.expr(rv["o"])
+                    if not (isinstance(e, tuple) and e and e[0] == "agg" and e[2] in ("Err", "None")):
+                        out.append((bb, e))
+        t = b.term(bb)
+        if t["t"] == "call" and t.get("d") == [0] and not (mir.callee(t) or "").endswith("FromResidual::from_residual"):
+            out.append((bb, b.expr(["c", [0]]) if False else ("call", mir.callee(t), tuple(b.expr(a) for a in t["a"]), bb, ())))
+    return out
+
+
+def controlled_by_option(b, bb, want, pred=lambda e: True):
+    """Is block bb control-dependent on an Option (whose expression satisfies pred) being `want` ('None' / 'Some')?
+    Recognises is_none() / is_some() tests and matches on the Option itself."""
+    for s, tb, v in controlling_edges(b, bb):
+        e = switch_expr(b, s)
+        m = switch_meaning(b, s, v)
+        if isinstance(e, tuple) and e and e[0] == "call" and e[1] in ("std::option::Option::is_none", "std::option::Option::is_some") and e[2]:
+            if not pred(e[2][0]):
+                continue
+            is_none = (m is True) == e[1].endswith("is_none")
+            if (want == "None") == is_none:
+                return True
+        if isinstance(e, tuple) and e and e[0] == "discr" and pred(e[1]):
+            if m == want or (isinstance(m, tuple) and set(m) == {want}):
+                return True
+    return False
+
+
+_NEG = {"Lt": "Ge", "Le": "Gt", "Gt": "Le", "Ge": "Lt", "Eq": "Ne", "Ne": "Eq"}
+_SWAP = {"Lt": "Gt", "Le": "Ge", "Gt": "Lt", "Ge": "Le", "Eq": "Eq", "Ne": "Ne"}
+
+
+def _cmp_forms(op, a, bnd):
+    """All spellings of the comparison `a op bnd` (which holds): operand order swapped, and for an integer constant
+    bound the strict / non-strict neighbour (x > 0  ==  x >= 1  ==  x != 0 for unsigned values)."""
+    forms = {(op, a, bnd), (_SWAP[op], bnd, a)}
+    k = const_value(bnd)
+    if k is not None:
+        kk = lambda n: ("const", str(n), None)      # noqa: E731
+        if op == "Gt":
+            forms.add(("Ge", a, kk(k + 1)))
+            if k == 0:
+                forms.add(("Ne", a, bnd))
+        if op == "Ge" and k >= 1:
+            forms.add(("Gt", a, kk(k - 1)))
+            if k == 1:
+                forms.add(("Ne", a, kk(0)))
+        if op == "Lt" and k >= 1:
+            forms.add(("Le", a, kk(k - 1)))
+            if k == 1:
+                forms.add(("Eq", a, kk(0)))
+        if op == "Le":
+            forms.add(("Lt", a, kk(k + 1)))
+            if k == 0:
+                forms.add(("Eq", a, bnd))
+        if op == "Ne" and k == 0:
+            forms.add(("Gt", a, bnd))
+            forms.add(("Ge", a, kk(1)))
+        if op == "Eq" and k == 0:
+            forms.add(("Lt", a, kk(1)))
+            forms.add(("Le", a, bnd))
+    out = set(forms)
+    for f in forms:
+        out.add((_SWAP[f[0]], f[2], f[1]))
+    return out
+
+
+def conds(b, bb):
+    """Conditions that hold at block bb because of the edges that control it, as (expression, meaning) pairs like
+    [(switch_expr, switch_meaning)] — closed under the usual respellings, so that rules need not know which one the
+    source uses: a comparison appears in every operand order / strictness and as its negation with meaning False;
+    `!x`; is_none() / is_some() / is_ok() / is_err() tests also appear as the discriminant of their operand and
+    vice versa."""
+    key = ("conds", bb)
+    cache = b.__dict__.setdefault("_ce_cache", {})
+    if key in cache:
+        return cache[key]
+    out = []
+    seen = set()
+
+    def add(e, m):
+        k = (repr(e), repr(m))
+        if k not in seen:
+            seen.add(k)
+            out.append((e, m))
+    for s, tb, v in controlling_edges(b, bb):
+        e = switch_expr(b, s)
+        m = switch_meaning(b, s, v)
+        add(e, m)
+        for _ in range(3):
+            if isinstance(e, tuple) and e and e[0] == "un" and e[1] == "Not" and isinstance(m, bool):
+                e, m = e[2], (not m)
+                add(e, m)
+        if isinstance(e, tuple) and e and e[0] == "bin" and e[1] in _NEG and isinstance(m, bool):
+            op = e[1] if m else _NEG[e[1]]
+            for f in _cmp_forms(op, e[2], e[3]):
+                add(("bin", f[0], f[1], f[2]), True)
+                add(("bin", _NEG[f[0]], f[1], f[2]), False)
+        if isinstance(e, tuple) and e and e[0] == "call" and e[2] and isinstance(m, bool):
+            tests = {"std::option::Option::is_none": ("None", "Some", "std::option::Option::is_some"),
+                     "std::option::Option::is_some": ("Some", "None", "std::option::Option::is_none"),
+                     "std::result::Result::is_ok": ("Ok", "Err", "std::result::Result::is_err"),
+                     "std::result::Result::is_err": ("Err", "Ok", "std::result::Result::is_ok")}
+            if e[1] in tests:
+                yes, no, other = tests[e[1]]
+                src, ren = peel_outcome(e[2][0])
+                name = yes if m else no
+                add(("discr", src), ren.get(name, name))
+                add(("call", other, e[2]) + tuple(e[3:]), not m)
+        if isinstance(e, tuple) and e and e[0] == "discr" and m == "Some":
+            # x.filter(|v| P(v)) is Some only if P held: the closure's comparison is a condition too (in the closure's
+            # own terms: parameter / captured variable names)
+            raw = switch_expr_raw(b, s)
+            for c in mir.calls_in(raw, "std::option::Option::filter"):
+                cl = c[2][1] if len(c[2]) > 1 else None
+                if isinstance(cl, tuple) and cl and cl[0] == "agg" and len(cl) > 4:
+                    cb = b.facts.by_dp.get((b.crate, cl[4]))
+                    if cb is not None:
+                        r = cb.expr(["c", [0]])
+                        if isinstance(r, tuple) and r and r[0] == "bin" and r[1] in _NEG:
+                            for f in _cmp_forms(r[1], r[2], r[3]):
+                                add(("bin", f[0], f[1], f[2]), True)
+        if isinstance(e, tuple) and e and e[0] == "discr" and isinstance(m, str):
+            if m in ("None", "Some"):
+                add(("call", "std::option::Option::is_none", (e[1],), None, ()), m == "None")
+                add(("call", "std::option::Option::is_some", (e[1],), None, ()), m == "Some")
+            if m in ("Ok", "Err"):
+                add(("call", "std::result::Result::is_ok", (e[1],), None, ()), m == "Ok")
+                add(("call", "std::result::Result::is_err", (e[1],), None, ()), m == "Err")
+    cache[key] = out
+    return out
+
+
+# ---------------------------------------------------------------------------------------------------------------
+# Boolean functions of loop-free predicates, by concrete execution over all valuations of their atoms
+
+def _atom_name(b, e):
+    """Stable name of an atomic boolean condition: `<field>` for a field read, `<field>.<method>` for a bool call."""
+    e = mir.strip_casts(e)
+    if isinstance(e, tuple) and e:
+        if e[0] == "call" and e[2]:
+            inner = _atom_name(b, e[2][0])
+            m = e[1].split("::")[-1]
+            if m in ("deref", "deref_mut", "as_ref", "borrow", "clone"):
+                return inner
+            return f"{inner}.{m}" if inner else None
+        lf = mir.last_field(e)
+        if lf:
+            return lf.split(":")[-1]
+    return None
+
+
+def bool_function(b, goal=None, max_atoms=10):
+    """Truth table of a loop-free boolean predicate.  Atoms are bool-typed reads that are not whole tracked locals
+    (fields, dereferenced pattern bindings) and bool-returning calls; they are named by _atom_name.  For every
+    valuation of the atoms the MIR is executed concretely (const / copy / BitAnd / BitOr / BitXor / Eq / Ne / Not on
+    bools, switches); a switch on a value that is not a function of the atoms explores every non-diverging successor.
+    Returns (atoms, table) where table maps a tuple of atom values to the set of outcomes: with `goal` (a set of
+    blocks) the outcomes are True (a goal block is reached) / False (a return is reached without), otherwise the
+    returned boolean values."""
+    import itertools
+    rets = set(b.returns())
+    can_return = {bb for bb in b.reachable if b.reach([bb]) & rets}
+
+    def is_bool_local(l):
+        return b.local_ty(l) == "bool"
+
+    # discover atoms
+    atoms = []
+
+    def note(name):
+        if name and name not in atoms:
+            atoms.append(name)
+    for bb in sorted(b.reachable):
+        if b.is_cleanup(bb) or bb not in can_return:
+            continue
+        for st in b.stmts(bb):
+            if st.get("k") != "assign" or st.get("xm", "").startswith("tracing"):
+                continue
+            rv = st["rv"]
+            ops = [rv.get(k) for k in ("o", "a", "b")]
+            for o in ops:
+                if o and o[0] != "k" and len(o[1]) > 1:
+                    ty_ok = len(st["p"]) == 1 and (is_bool_local(st["p"][0]) or rv["r"] in ("bin", "un"))
+                    if ty_ok and rv["r"] in ("use", "bin", "un"):
+                        e = b.expr(o)
+                        if rv["r"] == "use" and not is_bool_local(st["p"][0]):
+                            continue
+                        note(_atom_name(b, e))
+        t = b.term(bb)
+        if t["t"] == "call" and t.get("dty") == "bool" and not (t.get("xm") or "").startswith("tracing") and t["a"]:
+            note(_atom_name(b, ("call", mir.callee(t) or "?", tuple(b.expr(a) for a in t["a"][:1]))))
+    if len(atoms) > max_atoms:
+        raise mir.AnchorMissing(f"{len(atoms)} boolean atoms in {b.path}: {atoms}")
+
+    def run(val):
+        outcomes = set()
+        seen = set()
+        stack = [(0, {}, False)]
+        steps = 0
+        while stack and steps < 20000:
+            steps += 1
+            bb, env, hit = stack.pop()
+            key = (bb, tuple(sorted(env.items())), hit)
+            if key in seen:
+                continue
+            seen.add(key)
+            env = dict(env)
+            if goal is not None and bb in goal:
+                hit = True
+
+            def opv(o):
+                if o is None:
+                    return None
+                if o[0] == "k":
+                    k = o[1]
+                    if isinstance(k, dict) and k.get("ty") == "bool":
+                        return bool(int(k.get("v"))) if str(k.get("v")).isdigit() else {"true": True, "false": False}.get(str(k.get("v")))
+                    return None
+                pl = o[1]
+                if len(pl) == 1:
+                    if pl[0] in env:
+                        return env[pl[0]]
+                    return None
+                nm = _atom_name(b, b.expr(o))
+                return val.get(nm)
+            for st in b.stmts(bb):
+                if st.get("k") != "assign" or len(st["p"]) != 1:
+                    continue
+                rv = st["rv"]
+                v = None
+                if rv["r"] == "use":
+                    v = opv(rv["o"])
+                elif rv["r"] == "bin":
+                    x, y = opv(rv["a"]), opv(rv["b"])
+                    op = rv["op"]
+                    if op == "BitAnd":
+                        v = False if (x is False or y is False) else (True if (x is True and y is True) else None)
+                    elif op == "BitOr":
+                        v = True if (x is True or y is True) else (False if (x is False and y is False) else None)
+                    elif x is not None and y is not None and op in ("BitXor", "Ne"):
+                        v = x != y
+                    elif x is not None and y is not None and op == "Eq":
+                        v = x == y
+                elif rv["r"] == "un" and rv["op"] == "Not":
+                    x = opv(rv["a"])
+                    v = (not x) if x is not None else None
+                if v is None:
+                    env.pop(st["p"][0], None)
+                else:
+                    env[st["p"][0]] = v
+            t = b.term(bb)
+            k = t["t"]
+            if k == "return":
+                if goal is not None:
+                    outcomes.add(hit)
+                else:
+                    outcomes.add(env.get(0))
+                continue
+            if k == "call":
+                if t["tgt"] is None:
+                    continue
+                if len(t["d"]) == 1:
+                    env.pop(t["d"][0], None)
+                    if t.get("dty") == "bool" and t["a"]:
+                        nm = _atom_name(b, ("call", mir.callee(t) or "?", tuple(b.expr(a) for a in t["a"][:1])))
+                        if nm in val:
+                            env[t["d"][0]] = val[nm]
+                stack.append((t["tgt"], env, hit))
+                continue
+            if k == "switch":
+                v = opv(t["o"])
+                if isinstance(v, bool):
+                    tgt = [tb for x, tb in t["targets"] if str(x) == ("1" if v else "0")] or [t["otherwise"]]
+                    stack.append((tgt[0], env, hit))
+                else:
+                    for n in mir.Body.term_succ(t):
+                        if n in can_return:
+                            stack.append((n, env, hit))
+                continue
+            for n in mir.Body.term_succ(t):
+                if n in can_return or (goal is not None and n in goal):
+                    stack.append((n, env, hit))
+        return outcomes
+    table = {}
+    for bits in itertools.product([False, True], repeat=len(atoms)):
+        table[bits] = run(dict(zip(atoms, bits)))
+    return atoms, table
+
+
+def same_bool_function(atoms, table, want_atoms, fn):
+    """Compare a truth table with the function `fn(dict)` over `want_atoms`.  Returns (ok, message)."""
+    if set(atoms) != set(want_atoms):
+        return False, f"conditions {sorted(atoms)} (expected {sorted(want_atoms)})"
+    for bits, out in table.items():
+        v = dict(zip(atoms, bits))
+        exp = fn(v)
+        if out != {exp}:
+            return False, f"for {', '.join(k + '=' + str(x).lower() for k, x in sorted(v.items()))} the result is {sorted(map(str, out))}, expected {exp}"
+    return True, f"equals the documented function of {sorted(atoms)} on all {len(table)} valuations"
